@@ -321,6 +321,43 @@ pub fn main(args: &[String]) -> i32 {
     let tag = a.str("tag", "A");
     let reps = a.usize("reps", 1);
     let slow_ms = a.u64("slow", 0);
+    // --debuglog: a subscriber that enables every tracing callsite down to TRACE is installed for the whole process (somebody
+    // re-running a failing seed with verbose logging): what is logged must not change what happens
+    if a.get("debuglog").is_some() {
+        struct AllOn;
+        impl tracing::Subscriber for AllOn {
+            fn enabled(&self, _: &tracing::Metadata<'_>) -> bool { true }
+            fn new_span(&self, _: &tracing::span::Attributes<'_>) -> tracing::span::Id { tracing::span::Id::from_u64(1) }
+            fn record(&self, _: &tracing::span::Id, _: &tracing::span::Record<'_>) {}
+            fn record_follows_from(&self, _: &tracing::span::Id, _: &tracing::span::Id) {}
+            fn event(&self, _: &tracing::Event<'_>) {}
+            fn enter(&self, _: &tracing::span::Id) {}
+            fn exit(&self, _: &tracing::span::Id) {}
+        }
+        let _ = tracing::subscriber::set_global_default(AllOn);
+    }
+    // --neighbour: another thread of the same process keeps building and running simulations with other fault configurations
+    // (what `cargo test` does with its test threads): a simulation is a function of its own seed and configuration only
+    let stop = std::sync::Arc::new(std::sync::atomic::AtomicBool::new(false));
+    let neighbour = if a.get("neighbour").is_some() {
+        let stop = stop.clone();
+        Some(std::thread::spawn(move || {
+            let rt = tokio::runtime::Builder::new_current_thread().enable_all().start_paused(true).build().unwrap();
+            let mut sink = Out::create("/dev/null");
+            let noisy = ["dst/chaos", "dst/calm", "wal/chaos", "redis_dst/uniform", "streaming/calm", "compaction/chaos", "wal/default", "dst/moderate"];
+            let mut i = 0u64;
+            while !stop.load(std::sync::atomic::Ordering::SeqCst) {
+                let name = noisy[(i % noisy.len() as u64) as usize];
+                if HARNESSES.contains(&name) {
+                    let s = &mut sink;
+                    let _ = catch(std::panic::AssertUnwindSafe(|| one(s, name, 9000 + i, 120, "N", &rt, 0)));
+                }
+                i += 1;
+            }
+        }))
+    } else {
+        None
+    };
     let rt = tokio::runtime::Builder::new_current_thread().enable_all().start_paused(true).build().unwrap();
     for rep in 0..reps {
         let t = if reps == 1 { tag.to_string() } else { format!("{tag}{}", rep + 1) };
@@ -338,6 +375,10 @@ pub fn main(args: &[String]) -> i32 {
                 }
             }
         }
+    }
+    stop.store(true, std::sync::atomic::Ordering::SeqCst);
+    if let Some(h) = neighbour {
+        let _ = h.join();
     }
     println!("{{\"records\": {}}}", out.finish());
     0
